@@ -572,3 +572,12 @@ func init() {
 		mutant{Name: "virtual-environment-written-under-the-read-lock", Prop: "C08", File: "interp/use.go", Old: "\t\t\t\tinterp.envMu.Lock()\n\t\t\t\tdefer interp.envMu.Unlock()\n\t\t\t\tinterp.env[key] = value\n", New: "\t\t\t\tinterp.envMu.RLock()\n\t\t\t\tdefer interp.envMu.RUnlock()\n\t\t\t\tinterp.env[key] = value\n", Rule: "R08.3", Key: "guarded/fixStdlib/opt.env/write#2"},
 	)
 }
+
+func init() {
+	addMutants(
+		// D133 reverted, in parts
+		mutant{Name: "unix-tag-unknown-again", Prop: "C17", File: "interp/build.go", Old: "\tcase s == \"unix\" && unixOS[ctx.GOOS]:\n\t\tr = true\n", New: "", Rule: "R17.2", Key: "tag/unix"},
+		mutant{Name: "unix-systems-table-incomplete", Prop: "C17", File: "interp/build.go", Old: "\t\"hurd\":      true,\n\t\"illumos\":   true,\n\t\"ios\":       true,\n\t\"linux\":     true,\n", New: "\t\"illumos\":   true,\n\t\"ios\":       true,\n\t\"linux\":     true,\n", Rule: "R17.2", Key: "tag/unix/systems"},
+		mutant{Name: "implied-os-tags-unknown-again", Prop: "C17", File: "interp/build.go", Old: "\tcase s != \"\" && impliedOS[ctx.GOOS] == s:\n\t\t// The OS tag which is also satisfied for this GOOS, as in go/build.\n\t\tr = true\n", New: "", Rule: "R17.2", Key: "implied/android=>linux"},
+	)
+}
